@@ -372,6 +372,12 @@ def verify_function(qualname, contract, schema, timeout_ms=10000, contracts=None
         except Aborted:
             # the path ran into a point recorded as "must be unreachable": keep that obligation (it decides the path)
             out.kind = "abort"
+        if contract.get("fragment") is not None:
+            # a fragment's clauses talk about the local variables it assigns (accumulators of the enclosing function): their
+            # final values; old(x) is their value at entry
+            live = dict(env)
+            live.update(body_env)
+            it.live_env = live
         rel = contract.get("relational")
         if rel is not None and out.kind == "return":
             # second execution of the same function with some parameters replaced (relational clause: monotonicity etc.)
